@@ -187,7 +187,15 @@ def p_ext_call_kwarg(I, args, kwargs, node):
     return VStr(z3.String('no_such_ext_call'))
 
 
+def p_ext_call_nkwargs(I, args, kwargs, node):
+    """number of keyword arguments of the k-th external call `name`"""
+    nm, k = [_m.concretise(a) for a in args]
+    rs = [r for r in I.ghost.get('ext_trace', []) if r['name'] == nm]
+    return VInt(len(rs[k]['kwargs']) if k < len(rs) else -1)
+
+
 PRIMS['ext_call_kwarg'] = p_ext_call_kwarg
+PRIMS['ext_call_nkwargs'] = p_ext_call_nkwargs
 
 
 def p_ext_call_result(I, args, kwargs, node):
